@@ -248,10 +248,15 @@ func (s *server) GetTable(ctx context.Context, req *btapb.GetTableRequest) (*bta
 func (s *server) DeleteTable(ctx context.Context, req *btapb.DeleteTableRequest) (*emptypb.Empty, error) {
 	s.mu.Lock()
 	defer s.mu.Unlock()
-	if _, ok := s.tables[req.Name]; !ok {
+	tbl, ok := s.tables[req.Name]
+	if !ok {
 		return nil, status.Errorf(codes.NotFound, "table %q not found", req.Name)
 	}
 	delete(s.tables, req.Name)
+	// Persistent storage must forget the table too, or it comes back at the next start.
+	if d, ok := s.storage.(tableDeleter); ok {
+		d.DeleteTable(tbl.def)
+	}
 	return &emptypb.Empty{}, nil
 }
 
